@@ -473,4 +473,73 @@ theorem opFacts_of (ci : OpInfo) (hci : lookupOp "Custom" = some ci) (codes : Li
       exact this.2
     · rw [if_neg hn]; exact hcv
 
+/-! ## (e) one subgraph -/
+
+theorem pyIndex_range (n i : Nat) (h : i < n) : Reader.pyIndex (List.range n) (i : Int) = some i := by
+  unfold Reader.pyIndex
+  have h2 : (0 : Int) ≤ (i : Int) := by omega
+  simp [h2, h]
+
+theorem ioIndices_written (all : List Nat) (b : Nat) (l : List Nat) :
+    Reader.ioIndices b all.length (some (idxList all l)) = .ok (renList all b l) := by
+  unfold Reader.ioIndices idxList renList
+  rw [← List.map_filterMap]
+  apply mapM_map_ok
+  intro i hi
+  obtain ⟨g, _, hg⟩ := List.mem_filterMap.mp hi
+  have hil : i < all.length := (List.getElem?_eq_some_iff.mp (indexIn_some all g i hg)).1
+  simp only [Int.ofNat_eq_natCast, pyIndex_range _ _ hil]
+  rfl
+
+theorem inputs_check (ci : OpInfo) (all : List Nat) (b : Nat) (origIn : List Nat) (ops : List POp)
+    (h : (origIn.all fun g => ops.all fun p => !p.outputs.contains (some g)) = true) :
+    (Reader.dedupNat (renList all b origIn)).any (Reader.produced (ops.map (normROp ci all b))) = false := by
+  cases hc : (Reader.dedupNat (renList all b origIn)).any (Reader.produced (ops.map (normROp ci all b))) with
+  | false => rfl
+  | true =>
+    exfalso
+    obtain ⟨x, hx, hprod⟩ := List.any_eq_true.mp hc
+    unfold Reader.dedupNat at hx
+    rw [mem_dedup] at hx
+    unfold renList at hx
+    obtain ⟨i, hi, rfl⟩ := List.mem_map.mp hx
+    obtain ⟨g, hg, hgi⟩ := List.mem_filterMap.mp hi
+    unfold Reader.produced at hprod
+    obtain ⟨rop, hrop, hcon⟩ := List.any_eq_true.mp hprod
+    obtain ⟨p, hp, rfl⟩ := List.mem_map.mp hrop
+    have hmem : b + i ∈ renResults all b p.outputs := by simpa [normROp] using hcon
+    unfold renResults at hmem
+    obtain ⟨j, hj, hji⟩ := List.mem_map.mp hmem
+    obtain ⟨t, ht, htj⟩ := List.mem_filterMap.mp hj
+    have hij : j = i := by omega
+    subst hij
+    cases t with
+    | none => simp [mapIdx] at htj
+    | some g' =>
+      have e1 := indexIn_some all g j hgi
+      have e2 := indexIn_some all g' j htj
+      rw [e1] at e2
+      obtain rfl := Option.some.inj e2
+      have := List.all_eq_true.mp (List.all_eq_true.mp h g hg) p hp
+      simp at this
+      exact this ht
+
+theorem read_written_subgraph (ts : List TensorD) (ci : OpInfo) (rcodes : List Reader.RCode) (codes : List Code)
+    (bufs : List (Option Data)) (prev : List TensorD) (ps : PSub) (sg : SubGraphT) (own : List TensorD)
+    (hloc : SgLocal ts codes ps sg) (hlen : sg.tensors.length = (sgAll ts ps).length)
+    (hown : (sgAll ts ps).mapM (normTensorAt ts) = .ok own)
+    (hparse : sg.tensors.mapM (Reader.parseTensor bufs) = .ok own)
+    (hops : ∀ p ∈ writtenOps ps, OpFacts ci rcodes codes p)
+    (hinp : inputsNotProduced ps = true) :
+    Reader.readSubgraph rcodes bufs prev sg = normSub ts ci prev ps := by
+  obtain ⟨outs2, operators, ho, hser, hoe, hi, hou, hn, _⟩ := hloc
+  have hpo := parse_written_operators ci rcodes codes (sgAll ts ps) prev.length (prev ++ own) (writtenOps ps) operators 0 hser hops
+  have hchk : Writer.check (!(Reader.dedupNat (renList (sgAll ts ps) prev.length ps.sg.originalInputs)).any
+      (Reader.produced ((writtenOps ps).map (normROp ci (sgAll ts ps) prev.length)))) "vela-error" = .ok () := by
+    rw [inputs_check ci _ _ _ _ hinp]; rfl
+  unfold Reader.readSubgraph normSub
+  rw [hlen, hoe, hou, hi, hn]
+  simp only [hparse, hown, ho, hpo, ioIndices_written, hchk, bind, Except.bind, pure, Except.pure, List.append_nil, List.map_nil,
+    Option.getD_some]
+
 end VelaVerif.Tflite.Roundtrip
